@@ -47,7 +47,7 @@ func c04Probes(rows []dbgen.Row) []int64 {
 }
 
 func runC04(r *ev.Run) {
-	r.Rule = "every T1 table b-tree shape within bounds x 3 rowid sets x 2 layouts (separator = max of left / value in the gap) x every probe rowid {present, both neighbours, gap middle, last of gap (= separator), min64, max64, 0, -1, 1} through SelectRowid, PKSelect(alias pk) and Table.Rowid, then every probe again in descending order on the same handle; oracle = the builder's logical rows; non-trivial = probes on images with interior pages"
+	r.Rule = "every T1 table b-tree shape within bounds x 3 rowid sets x 2 layouts (separator = max of left / value in the gap) x every probe rowid {present, both neighbours, gap middle, last of gap (= separator), min64, max64, 0, -1, 1} through SelectRowid, PKSelect(alias pk) and Table.Rowid, then every probe again in descending order on the same handle; plus brim-full leaves at page sizes 512/1024/4096 (a row with one partly filled overflow page at the lowest address of a page that is full to the last byte); oracle = the builder's logical rows; non-trivial = probes on images with interior pages"
 	r.Set("bounds", fmt.Sprintf("%+v", allBounds(r)))
 	cols := []string{"a", "b", "c", "d", "e", "rowid"}
 	defer func() {
@@ -58,10 +58,28 @@ func runC04(r *ev.Run) {
 	for _, b := range allBounds(r) {
 		c04Shapes(r, b, cols)
 	}
+	// brim-full leaves: the row with a partly filled single overflow page at the lowest address of a full page
+	for _, ps := range []int{512, 1024, 4096} {
+		si, err := brimImage(ps)
+		if err != nil {
+			r.Harness("C04 brim image: %v", err)
+			continue
+		}
+		if err := Conform(si.Spec, si.Img); err != nil {
+			r.Harness("C04 brim image conformance: %v", err)
+			continue
+		}
+		r.Validated(1)
+		c04Image(r, si, cols)
+	}
 }
 
 func c04Shapes(r *ev.Run, b shapeBounds, cols []string) {
-	forTableShapes(r, b, func(si *ShapeImage) {
+	forTableShapes(r, b, func(si *ShapeImage) { c04Image(r, si, cols) })
+}
+
+func c04Image(r *ev.Run, si *ShapeImage, cols []string) {
+	func() {
 		t := &si.Spec.Tables[0]
 		rows := si.Img.TableRows["t1"]
 		byID := map[int64][]interface{}{}
@@ -146,7 +164,7 @@ func c04Shapes(r *ev.Run, b shapeBounds, cols []string) {
 			}
 			c04Judge(r, "SelectRowid(second pass, descending)", class, id, CopyRowOrNil(row), err, want, present, map[string]interface{}{"image": si.Desc, "rowid": id, "present": present, "pass": "second, descending"})
 		}
-	})
+	}()
 }
 
 func init() {
